@@ -228,7 +228,7 @@ func onceGuarded(c *core.Ctx, f *ssa.Function, inSCC func(*ssa.Function) bool, g
 			continue
 		}
 		cal := call.Call.StaticCallee()
-		if cal == nil || cal.Name() != "linked" || core.PkgRel(cal) != "compile" {
+		if cal == nil || core.CanonName(cal) != "linked" || core.PkgRel(cal) != "compile" {
 			continue
 		}
 		// argument is (a field of) the receiver
@@ -1229,6 +1229,12 @@ func checkExplicitPanics(c *core.Ctx, l *core.Ledger) {
 				l.Check(len(kinds) == 0, "PANICS", key, pos, "unreachable for every kind of TypeSpec (finite-domain path analysis)", "reachable for TypeSpec kinds "+strings.Join(kinds.names(), ", "))
 				return
 			}
+			// (i'') reached only after a value of a repository interface failed a type assertion to every
+			// implementer (a type switch written as an if-chain, or any other shape of the same tests)
+			if ok, why := panicAfterExhaustiveAsserts(c, p); ok {
+				l.Ok("PANICS", key, pos, why)
+				return
+			}
 			// (i') default of a value switch over a named constant set that lists every constant
 			if ok, why := panicInExhaustiveValueSwitch(c, p); ok {
 				l.Ok("PANICS", key, pos, why)
@@ -1405,4 +1411,61 @@ func panicInExhaustiveValueSwitch(c *core.Ctx, p *ssa.Panic) (bool, string) {
 		}
 	}
 	return false, ""
+}
+
+// panicAfterExhaustiveAsserts: every path to the panic runs along the failing
+// edges of comma-ok type assertions of one interface-typed value, and together
+// these assertions name every implementer of that interface declared in the
+// interface's own package (unexported implementers of another package are
+// pre-link placeholders, as for type switches).
+func panicAfterExhaustiveAsserts(c *core.Ctx, p *ssa.Panic) (bool, string) {
+	b := p.Block()
+	var subject ssa.Value
+	asserted := map[string]bool{}
+	for i := 0; i < 64 && len(b.Preds) == 1; i++ {
+		pred := b.Preds[0]
+		if ifi, ok := pred.Instrs[len(pred.Instrs)-1].(*ssa.If); ok {
+			ex, isEx := ifi.Cond.(*ssa.Extract)
+			if !isEx || ex.Index != 1 || pred.Succs[1] != b {
+				break
+			}
+			ta, isTA := ex.Tuple.(*ssa.TypeAssert)
+			if !isTA || !ta.CommaOk {
+				break
+			}
+			if subject == nil {
+				subject = ta.X
+			} else if subject != ta.X {
+				break
+			}
+			asserted[core.TypeLabel(ta.AssertedType)] = true
+		}
+		b = pred
+	}
+	if subject == nil || len(asserted) == 0 {
+		return false, ""
+	}
+	named, ok := subject.Type().(*types.Named)
+	if !ok || named.Obj().Pkg() == nil || !strings.HasPrefix(named.Obj().Pkg().Path(), core.ModPath) {
+		return false, ""
+	}
+	rel := strings.TrimPrefix(strings.TrimPrefix(named.Obj().Pkg().Path(), core.ModPath), "/")
+	_, impl := ifaceDomain(c, rel+"."+named.Obj().Name())
+	if len(impl) == 0 {
+		return false, ""
+	}
+	here := core.PkgRel(p.Parent())
+	var missing []string
+	for _, it := range impl {
+		if n := core.RecvTypeName(it); n != "" && !ast.IsExported(n) && here != rel {
+			continue
+		}
+		if !asserted[core.TypeLabel(it)] {
+			missing = append(missing, core.TypeLabel(it))
+		}
+	}
+	if len(missing) > 0 {
+		return false, ""
+	}
+	return true, fmt.Sprintf("reached only after the value failed a type assertion to each of the %d implementers of %s.%s", len(asserted), rel, named.Obj().Name())
 }
